@@ -405,17 +405,31 @@ func independentServerCheck(data []byte, sec bool, r srvRun) string {
 	if !strings.HasPrefix(m2, "GET ") {
 		return "second message is not a GET"
 	}
+	l1, l2 := strings.ToLower(m1), strings.ToLower(m2)
+	after := func(hay, lowHay, key, val string) bool {
+		// some header line named key (any case) is followed, within the message, by val
+		for from := 0; ; {
+			i := strings.Index(lowHay[from:], "\n"+key+":")
+			if i < 0 {
+				return false
+			}
+			i += from
+			if strings.Contains(hay[i:], val) {
+				return true
+			}
+			from = i + 1
+		}
+	}
 	ok := false
 	for _, v := range socketace.SupportedProtocolVersions {
-		if strings.Contains(strings.ReplaceAll(strings.ReplaceAll(m1, "\r\n", ""), "\n", ""), v) &&
-			strings.Contains(m2, "socketace/"+v) {
+		if after(m1, l1, strings.ToLower(socketace.AcceptsProtocolVersion), v) && after(m2, l2, "upgrade", "socketace/"+v) {
 			ok = true
 		}
 	}
 	if !ok {
 		return "no supported version offered and requested"
 	}
-	if !strings.Contains(strings.ToLower(m2), "upgrade") {
+	if !after(l2, l2, "connection", "upgrade") {
 		return "no connection upgrade requested"
 	}
 	return ""
